@@ -13,27 +13,27 @@ Open Scope Z_scope.
 (* The Delivery sequence handed to the consumer endpoint: the first carries seq 1, every next one repeats the
    previous seq or carries the next seq, and the Delivery of seq q carries the q-th message the producer
    controller stored (production order, no gap, no foreign message). *)
-Theorem C42_in_order_no_gaps : forall sess notify W ops,
+Theorem C42_in_order_no_gaps : forall sess notify W fx ops,
   sess <> 0 -> 1 <= W -> forallb legit ops = true ->
-  let s := run (sys_init sess notify W) ops in
+  let s := run (sys_init sess notify W fx) ops in
   in_order (p_log (sP s)) 0 (toCons s).
 Proof. intros. eapply deliveries_in_order; try eassumption; apply reach_inv; assumption. Qed.
 
 (* A Delivery is (re-)presented only while it is the unconfirmed one in flight: after the step that hands it
    over it is the in-flight delivery and lies just above the consumer's confirmation watermark, and that
    watermark never decreases (so a confirmed sequence is never presented again). *)
-Theorem C42_represented_only_while_in_flight : forall sess notify W ops o,
+Theorem C42_represented_only_while_in_flight : forall sess notify W fx ops o,
   sess <> 0 -> 1 <= W -> forallb legit ops = true -> legit o = true ->
-  let s := run (sys_init sess notify W) ops in
+  let s := run (sys_init sess notify W fx) ops in
   Forall (fresh_delivery sess (sC (sys_step s o))) (outs_toCons (snd (snd (sys_step_out s o)))) /\
   c_conf (sC s) <= c_conf (sC (sys_step s o)) /\ c_upto (sC s) <= c_upto (sC (sys_step s o)).
 Proof. intros. eapply represented_only_in_flight; try eassumption; apply reach_inv; assumption. Qed.
 
 (* confirmed (producer) <= confirmed (consumer) <= delivered <= stored; the producer's unconfirmed buffer is
    exactly the contiguous run (confirmedSeq, currentSeq] of the stored log. *)
-Theorem C42_chain_confirmed_delivered_stored : forall sess notify W ops,
+Theorem C42_chain_confirmed_delivered_stored : forall sess notify W fx ops,
   sess <> 0 -> 1 <= W -> forallb legit ops = true ->
-  let s := run (sys_init sess notify W) ops in
+  let s := run (sys_init sess notify W fx) ops in
   p_conf (sP s) <= c_conf (sC s) /\ c_conf (sC s) <= K (sC s) /\ K (sC s) <= p_cur (sP s) /\
   p_cur (sP s) = Z.of_nat (length (p_log (sP s))) /\
   p_unconf (sP s) = number (p_conf (sP s)) (skipn (Z.to_nat (p_conf (sP s))) (p_log (sP s))).
@@ -45,9 +45,9 @@ Proof. intros. eapply chain; try eassumption; apply reach_inv; assumption. Qed.
    newest controller messages in order, the consumer endpoint confirming what it is handed — consists of legitimate
    steps only and strictly increases the producer's confirmedSeq. (The state after it is reachable again, so the
    argument repeats until everything stored is confirmed.) *)
-Theorem C42_progress_confirmed_increases : forall sess notify W ops,
+Theorem C42_progress_confirmed_increases : forall sess notify W fx ops,
   sess <> 0 -> 1 <= W -> W <= maxWindowCap -> forallb legit ops = true ->
-  let s := run (sys_init sess notify W) ops in
+  let s := run (sys_init sess notify W fx) ops in
   p_failed (sP s) = false -> p_cur (sP s) < maxI64 - 1 -> p_conf (sP s) < p_cur (sP s) ->
   forallb legit (recover s) = true /\ p_conf (sP s) < p_conf (sP (run s (recover s))).
 Proof.
